@@ -4,4 +4,5 @@ OutOfRange == {<<-1, 0>>, <<0, -1>>, <<Fan, 0>>, <<0, Fan>>, <<Fan, Fan>>, <<Fan
 MC_EnvEdge == {0, 1, Fan \div 2, Top} \X {0, 1, Top - 1, Top}
 MC_EnvAll  == Idx \X Idx
 MC_ReqAll  == (Idx \X Idx) \cup OutOfRange
+MC_L0Offsets == {-1, 0, 1}
 =============================================================================
